@@ -173,7 +173,7 @@ class C06(core.Check):
                             local_use.setdefault(ln, []).append((f, r))
                     elif x < 0.6:
                         cn = rng.choice(['K_' + str(marker[0]), '_kf' + str(marker[0])])
-                        L.append({'k': 'const', 'name': cn, 'val': 0x4000 + marker[0]})
+                        L.append({'k': 'const', 'name': cn, 'val': rng.choice([0, 0, 1, 0x4000 + marker[0]])})
                         if used_here:
                             tags.add('const-between-def-and-use')
                     else:
